@@ -412,6 +412,10 @@ def _real_runs(worker_counts=(1, 2, 4), orders=("natural", "reversed", "rotated"
         # not the default closed side, and redshifts exactly on the bin edges: a binning that loses its closed side on the
         # way to a worker process gives different trees / histograms than the sequential run
         cfg = yaw.Configuration.create(rmin=500, rmax=5000, zmin=0.1, zmax=1.0, num_bins=3, closed="left")
+        # two configurations that differ only in the separation-weighting exponent (same angular bins): nothing that one measurement
+        # leaves behind in the process may change what the next one computes, whether its tasks run here or in worker processes
+        cfg_w = yaw.Configuration.create(rmin=500, rmax=5000, zmin=0.1, zmax=1.0, num_bins=3, closed="left", rweight=-1.0, resolution=8)
+        cfg_w_other = yaw.Configuration.create(rmin=500, rmax=5000, zmin=0.1, zmax=1.0, num_bins=3, closed="left", rweight=0.5, resolution=8)
         for nw in worker_counts:
             for order in orders if nw > 1 else ("natural",):
                 os.environ["YAW_NUM_THREADS"] = str(nw)
@@ -431,22 +435,43 @@ def _real_runs(worker_counts=(1, 2, 4), orders=("natural", "reversed", "rotated"
                         # the worker processes see: nothing that is cached in memory may stand in for the files the workers rewrite
                         os.environ["YAW_NUM_THREADS"] = "1"
                         other = yaw.Configuration.create(rmin=500, rmax=5000, zmin=0.1, zmax=1.0, num_bins=2, closed="right")
+                        yaw.crosscorrelate(cfg_w_other, yaw.Catalog(tmp + "/ref", max_workers=1), unk, max_workers=1, ref_rand=rand)
+                        # last: the measurement that leaves trees of *another* binning in the caches and in this process
                         yaw.crosscorrelate(other, yaw.Catalog(tmp + "/ref", max_workers=1), unk, ref_rand=rand, max_workers=1)
                         os.environ["YAW_NUM_THREADS"] = str(nw)
                     try:
                         cat = yaw.Catalog(tmp + "/ref", max_workers=nw)
                         hist = HistData.from_catalog(cat, cfg, max_workers=nw)
                         cf = yaw.crosscorrelate(cfg, cat, unk, ref_rand=rand, max_workers=nw)[0]
+                        cfw = yaw.crosscorrelate(cfg_w, cat, unk, ref_rand=rand, max_workers=nw)[0]
                     except Exception as ex:  # noqa: BLE001 - a run that fails only for some worker count / order is a difference
                         out.append((f"workers={nw},order={order}", dict(failed=f"{type(ex).__name__}: {ex}")))
                         continue
                     r = dict(ids=list(cat.keys()), nrec=list(cat.get_num_records()), sumw=list(cat.get_sum_weights()),
                              centers=cat.get_centers().data.tobytes(), hist=hist.data.tobytes(), hist_samples=hist.samples.tobytes(),
-                             dd=cf.dd.counts.counts.tobytes(), rd=cf.rd.counts.counts.tobytes(),
+                             dd=cf.dd.counts.counts.tobytes(), rd=cf.rd.counts.counts.tobytes(), dd_weighted=cfw.dd.counts.counts.tobytes(),
                              sw1=cf.dd.sum_weights.sum_weights1.tobytes(), sw2=cf.dd.sum_weights.sum_weights2.tobytes())
                     out.append((f"workers={nw},order={order}", r))
                 finally:
                     mpp.Pool.imap_unordered = orig_imap
+        # the other direction: a parallel measurement first (its tasks run in fresh worker processes), then sequential measurements in
+        # this process - with another weighting exponent in between - must give the same numbers as the parallel one
+        try:
+            cfg_v = yaw.Configuration.create(rmin=400, rmax=4000, zmin=0.1, zmax=1.0, num_bins=3, closed="left", rweight=-1.0, resolution=6)
+            cfg_v_other = yaw.Configuration.create(rmin=400, rmax=4000, zmin=0.1, zmax=1.0, num_bins=3, closed="left", rweight=0.5, resolution=6)
+            nw = max(worker_counts)
+            os.environ["YAW_NUM_THREADS"] = str(nw)
+            a = yaw.crosscorrelate(cfg_v, yaw.Catalog(tmp + "/ref", max_workers=nw), unk, ref_rand=rand, max_workers=nw)[0]
+            os.environ["YAW_NUM_THREADS"] = "1"
+            yaw.crosscorrelate(cfg_v_other, yaw.Catalog(tmp + "/ref", max_workers=1), unk, ref_rand=rand, max_workers=1)
+            b = yaw.crosscorrelate(cfg_v, yaw.Catalog(tmp + "/ref", max_workers=1), unk, ref_rand=rand, max_workers=1)[0]
+            ref_label, ref_r = out[0]
+            late = dict(ref_r)
+            if a.dd.counts.counts.tobytes() != b.dd.counts.counts.tobytes() or a.rd.counts.counts.tobytes() != b.rd.counts.counts.tobytes():
+                late["dd_weighted"] = b"sequential counts after a measurement with another exponent differ from the parallel counts"
+            out.append((f"weighted counts: {nw} workers first, then sequential after another exponent", late))
+        except Exception as ex:  # noqa: BLE001
+            out.append(("weighted counts: parallel first, then sequential", dict(failed=f"{type(ex).__name__}: {ex}")))
     finally:
         mpp.Pool.imap_unordered = orig_imap
         if old_env is None:
